@@ -18,6 +18,14 @@
 // resolve the stall in the same step (resume reading, close the stalled subscription) are
 // allowed, because then every lock wait is transient. On the unchanged tree a bubble that
 // still hangs is therefore a lock-order deadlock of the bus itself.
+//
+// Read-only queries (action kind "query": Bus.GetAllEventTypes, Subscription.Name / Out) are
+// never refused by the filter: they deliver nothing and register nothing, so they have no
+// reason to wait for a subscriber, and they are run at any instant - next to Subscribe /
+// Close / Emitter calls and while an Emit of an earlier step stays stalled. A query that
+// does wait behind a stalled Emit (and, holding the bus' registry lock meanwhile, makes
+// every Close / Subscribe / Emitter wait with it) freezes the bubble like any other
+// lock-order deadlock.
 package c15
 
 import (
@@ -155,7 +163,12 @@ func (b badSpec) String() string {
 // action kinds: emit (burst of N events of emitter E on emit goroutine W), sub (create
 // subscription S), closeSub, resume (S reads continuously from now on), grant (S reads N
 // more events), closeEm, newEm, bad (make the refused call B of scenario.Bad; any number of
-// times). Y = number of runtime.Gosched calls before acting.
+// times), query (the read-only calls of the API: Bus.GetAllEventTypes and, when S names a
+// subscription that exists by then, its Name and Out accessors; S = -1: the bus query alone).
+// A query changes nothing, so every rule of the property applies to the rest of the history
+// as if it had not been made; it is one more goroutine inside the bus next to Emit /
+// Subscribe / Close, also while an Emit is stalled on a slow subscriber.
+// Y = number of runtime.Gosched calls before acting.
 type action struct {
 	K     string `json:"k"`
 	W     int    `json:"w,omitempty"`
@@ -187,6 +200,11 @@ func (a action) String() string {
 		return fmt.Sprintf("%s(e%d)", a.K, a.E)
 	case "bad":
 		return fmt.Sprintf("bad(b%d)", a.B)
+	case "query":
+		if a.S >= 0 {
+			return fmt.Sprintf("query(s%d)", a.S)
+		}
+		return "query"
 	}
 	return a.K
 }
@@ -293,6 +311,17 @@ type badRec struct {
 
 func (e *emState) ready() bool { return e.em != nil }
 
+// queryRec is one executed query action.
+type queryRec struct {
+	step       int
+	begin, end int64 // stamps around Bus.GetAllEventTypes (end = 0: not returned)
+	nTypes     int
+	// what was going on when it was issued (coverage only)
+	emitBlocked bool // an Emit of an earlier step had not returned
+	busWriter   bool // a call that changes the bus' set of types / subscribers started at the same instant
+	outlasted   bool // that Emit was still stalled at the quiescence point after the query
+}
+
 type readRec struct {
 	v   any
 	pre bool // Close had not been called yet when the receive completed
@@ -358,6 +387,7 @@ type harness struct {
 	recs    map[evKey]*emitRec
 	all     []*emitRec
 	bads    []*badRec
+	queries []*queryRec
 	anyEmit [nTypes]bool
 	// mayReplay, per type: an emitter of the scenario declares the type stateful, so a
 	// Subscribe may have to replay a retained event (upper bound used by the hazard filter:
@@ -434,6 +464,8 @@ func (h *harness) valid(a action, usedSub, usedEm, usedW map[int]bool) bool {
 		return a.E >= 0 && a.E < len(h.ems) && !h.ems[a.E].created && !usedEm[a.E]
 	case "bad":
 		return a.B >= 0 && a.B < len(h.sc.Bad)
+	case "query":
+		return a.S >= -1 && a.S < len(h.subs)
 	}
 	return false
 }
@@ -511,6 +543,13 @@ func (h *harness) analyse(acts []action) (string, map[int]bool) {
 		case "newEm":
 			xusers[h.ems[a.E].typ]++
 			blk[h.ems[a.E].typ]++
+		case "query":
+			// A read-only query is planned as a transient reader of the bus' registry: it has
+			// no business with any subscriber's queue, so it is never a reason to hold back
+			// another action and no stalled Emit is a reason to hold it back. Whether that is
+			// true of the bus is exactly what the no-deadlock rule then decides (a query that
+			// waits behind a stalled Emit, or makes a Close / Subscribe / Emitter wait behind
+			// one, leaves a call that has not returned at the quiescence point).
 		case "bad":
 			// A refused call may well take (and give back) the locks the accepted call would
 			// take before it finds out that it has to refuse: it is planned like a user of the
@@ -849,6 +888,19 @@ func (h *harness) doBad(r *badRec) {
 	r.end = h.now()
 }
 
+// doQuery makes the read-only calls: the bus' list of event types and, for a subscription
+// that exists, its accessors. The answers are not judged (the property says nothing about
+// them); that the calls return, and what they do to everybody else, is.
+func (h *harness) doQuery(q *queryRec, s *subState) {
+	q.begin = h.now()
+	q.nTypes = len(h.bus.GetAllEventTypes())
+	q.end = h.now()
+	if s != nil {
+		_ = s.sub.Name()
+		_ = s.sub.Out()
+	}
+}
+
 func (h *harness) doSubscribe(s *subState) {
 	var arg any
 	switch s.spec.Kind {
@@ -1059,6 +1111,25 @@ func (h *harness) launch(acc []action) {
 			e.created = true
 			e.midHistory = true
 			body = func() { h.doNewEm(e) }
+		case "query":
+			q := &queryRec{step: h.stepNo}
+			h.queries = append(h.queries, q)
+			for _, b := range h.workers {
+				if b != nil && !b.finished.Load() && b.step < h.stepNo {
+					q.emitBlocked = true
+				}
+			}
+			for _, o := range acc {
+				switch o.K {
+				case "sub", "closeSub", "closeEm", "newEm", "bad":
+					q.busWriter = true
+				}
+			}
+			var s *subState
+			if a.S >= 0 && h.subs[a.S].ready() {
+				s = h.subs[a.S] // returned by a Subscribe of an earlier step
+			}
+			body = func() { h.doQuery(q, s) }
 		}
 		if run != nil {
 			h.pending = append(h.pending, run)
@@ -1101,6 +1172,16 @@ func (h *harness) launch(acc []action) {
 	}
 	start.Store(true)
 	h.quiesce()
+	for _, q := range h.queries {
+		if q.step != h.stepNo || !q.emitBlocked {
+			continue
+		}
+		for _, b := range h.workers {
+			if b != nil && !b.finished.Load() && b.step < h.stepNo {
+				q.outlasted = true
+			}
+		}
+	}
 	// a subscription that could absorb everything sent to it in this step has no stalled sender
 	for _, s := range h.subs {
 		if s.ready() && !stall[s.id] {
